@@ -535,6 +535,10 @@ class CallMixin:
             q.assume(en.fn(x))
         if isinstance(res.extra, dict) and "emb" in res.extra and res.tag == "lref":
             q.ghost.setdefault("filters", []).append((res.z, None, res.extra["emb"], res.extra["inv"]))
+        if isinstance(res.extra, dict) and res.extra:
+            # ghost witnesses the callee's postcondition introduced (existentials): the caller's own clauses may name them
+            q.ghost["callee_wits"] = dict(q.ghost.get("callee_wits", {}))
+            q.ghost["callee_wits"][short] = dict(res.extra)
         q.labels[f"after:{short}:{line}"] = h1
         q.ghost.setdefault("calls", []).append((short, line, h0, h1, a, res))
         outs.append((q, res))
